@@ -5794,6 +5794,10 @@ class PyCdlib:
         self.isohybrid_mbr.new(efi, mac, part_entry, mbr_id, part_offset,
                                geometry_sectors, geometry_heads, part_type)
 
+        # The boot file location recorded in the MBR (and the EFI and Mac
+        # partitions) is only filled in when the extents are assigned.
+        self._finish_add(0, 0)
+
     def rm_isohybrid(self):
         # type: () -> None
         """
